@@ -52,6 +52,7 @@ type hold struct {
 	allow   int
 	pass    []string      // substrings of function names on the BEGIN's call stack: let through (by allowance)
 	park    []string      // substrings that identify the transactions to keep parked; if set, everything ELSE counts as "pass"
+	ended   int           // transactions of the actor that have ended so far (commit done / rollback)
 	watch   bool          // signal txDone when a transaction of the actor ends (commit done / rollback)
 	txDone  chan struct{} // buffered
 }
@@ -60,6 +61,20 @@ func newHold() *hold {
 	h := &hold{txDone: make(chan struct{}, 16)}
 	h.cond = sync.NewCond(&h.mu)
 	return h
+}
+
+// awaitEnded waits until at least n transactions of the actor have ended (or the time is up).
+func (h *hold) awaitEnded(n int, max time.Duration) {
+	deadline := time.Now().Add(max)
+	for time.Now().Before(deadline) {
+		h.mu.Lock()
+		ok := h.ended >= n
+		h.mu.Unlock()
+		if ok {
+			return
+		}
+		time.Sleep(5 * time.Millisecond)
+	}
 }
 
 func (h *hold) set(holding bool) {
@@ -113,6 +128,7 @@ func holdHook(ev sqlwrap.Event) {
 	h := v.(*hold)
 	if ev.Kind != sqlwrap.Begin {
 		h.mu.Lock()
+		h.ended++
 		if h.watch {
 			h.watch = false
 			select {
